@@ -25,6 +25,7 @@ def run(tier, rep, work):
     for i, cfg in enumerate(cfgs):
         vecfam.run_config(rep, work, exe, d, "C01", tier, cfg, gen if cfg["gen"] else None, i)
     rep.cov["exhaustive"] = True
+    rep.cov["exhaustive_scope"] = "every history of the model space (MaxOps operations, 2 ids x 3 vectors) is replayed on real flat indexes for the three metrics; random histories on float data are samples"
     rep.cov["rule"] = vecfam.RULE
     rep.cov["trusted_base"] = ["TLC", "float64 reference evaluator in the harness (textbook L2 / squared L2 / cosine)",
                                "fixed-point rendering round(x*scale)", "tie band Eps = ceil(scale*4*dim*2^-24*max)+1 (0 on the lattice)"]
